@@ -439,7 +439,17 @@ func (st *runState) run(workers int) int {
 func runWorker(bin string, u Unit, cfg, tier string, seed int64, shard, n int, only int64, deadline int, out string) (*workerResult, []uint64, error) {
 	os.Remove(out)
 	os.Remove(out + ".keys")
-	cmd := exec.Command(bin, "-test.run", "^TestVerif$", "-test.timeout", "0", "-test.count", "1")
+	args := []string{bin, "-test.run", "^TestVerif$", "-test.timeout", "0", "-test.count", "1"}
+	if i := strings.Index(u.Params, "cpus="); i >= 0 {
+		// the number of processors the PROCESS starts with (runtime.NumCPU, fixed at start-up from the
+		// affinity mask) is a dimension: run the worker under taskset when that is possible here
+		var n int
+		fmt.Sscanf(u.Params[i+5:], "%d", &n)
+		if ts, err := exec.LookPath("taskset"); err == nil && n > 0 && exec.Command(ts, "-c", fmt.Sprintf("0-%d", n-1), "true").Run() == nil {
+			args = append([]string{ts, "-c", fmt.Sprintf("0-%d", n-1)}, args...)
+		}
+	}
+	cmd := exec.Command(args[0], args[1:]...)
 	cmd.Dir = filepath.Dir(bin)
 	env := append(os.Environ(),
 		"VERIF_JOB="+u.Job, "VERIF_TIER="+tier, "VERIF_SEED="+strconv.FormatInt(seed, 10),
